@@ -220,6 +220,39 @@ def main(tier, seed, replay=None):
             run.violation("fault injection: " + d, {"case": c, "implementation": r, "property_predicate": d})
     nok, nprov = hist.evaluate(run, "C09", cases, results, what="fault injection", classify=predicate)
     nfit, nfit_ok, fit_outcomes = fit_fault_phase(run, rng, binp, workdir, tier)
+    # builder-made models whose derivative closures violate the shape contract (too long / too short output): the failure must reach
+    # the caller as an absent Jacobian / a failed fit — an error value, never a panic — in caller-driven histories and in fits
+    from . import statsrun
+    scases = []
+    for j in range(12 if tier == "quick" else 120):
+        M, P = [(2, 1), (3, 1), (2, 2), (3, 2)][j % 4]
+        c = statsrun.gen_stats_case(rng, M, P, M + P + 3 + j % 3, scalar=("f32" if j % 5 == 4 else "f64"), weights=["none", "pos"][j % 2],
+                                    quant=8, probs=[], builder_made=True, ctor=("new_parallel" if j % 3 == 2 else "new"))
+        c["model"]["deriv_len_delta"] = [1, 3, -1, 7][j % 4]
+        if j % 2:
+            c["ops"] = [["observe"], ["jac"], ["fit", {}], ["observe"], ["jac"]]
+        else:
+            c["ops"] = [["observe"], ["jac"], ["fit_stats", {}, []], ["observe"], ["jac"]]
+        c["id"] = 9000 + j
+        scases.append(c)
+    sres = run_harness(binp, "scenario", scases, workdir, timeout_ms=20000, tag="shape")
+    nshape = 0
+    for c, r in zip(scases, sres):
+        nshape += 1
+        if r.get("panic") is not None or r.get("timeout"):
+            run.violation("a derivative of wrong output length (builder-made model, %+d elements) made the library panic / hang: %s"
+                          % (c["model"]["deriv_len_delta"], r.get("panic") or "timeout"), {"case": c, "result": r})
+            continue
+        st = r["steps"]
+        if st[1]["v"] is not None:
+            run.violation("a Jacobian is exposed although every derivative of the model violates the shape contract", {"case": c, "jacobian": st[1]["v"]})
+            continue
+        fitv = st[2]["v"]
+        flog = st[-1]["log"][fitv["log_start"]:] if st[-1].get("log") is not None else []
+        dfail = any(e[0] == "D" and not e[2] for e in flog)
+        if fitv["ok"] and dfail:
+            run.violation("fit returned Ok although a derivative evaluation failed during the optimizer's run", {"case": c, "fit": fitv})
+    run.coverage["shape_violating_derivative_cases"] = nshape
     kinds = {}
     for c in cases:
         k = "none" if not c["faults"] else list(c["faults"].keys())[0]
